@@ -66,7 +66,8 @@ class Pure:
         if isinstance(v, tuple) and v[0] == "a":
             base = v[1].split("<")[0]
             short = base.rsplit("::", 1)[-1]
-            std = {"Option": {"None": 0, "Some": 1}, "Result": {"Ok": 0, "Err": 1}}
+            std = {"Option": {"None": 0, "Some": 1}, "Result": {"Ok": 0, "Err": 1},
+                   "Ordering": {"Less": 255, "Equal": 0, "Greater": 1}}     # i8 discriminants as the switch prints them
             if short in std and v[2] in std[short]:
                 return std[short][v[2]]
             a = self.F.adts.get(base)
@@ -241,6 +242,15 @@ class Pure:
             if a == U or b == U or has_unknown(a) or has_unknown(b):
                 return U
             return int((a == b) == name.endswith("eq"))
+        if name.endswith("::cmp") and ("core::cmp::Ord" in name or "impl core::cmp::Ord for" in name):
+            a, b = args[0], args[1]
+            while isinstance(a, tuple) and a[0] == "rv":
+                a = a[1]
+            while isinstance(b, tuple) and b[0] == "rv":
+                b = b[1]
+            if isinstance(a, int) and isinstance(b, int) and not isinstance(a, bool):
+                return ("a", "core::cmp::Ordering", "Less" if a < b else ("Equal" if a == b else "Greater"), ())
+            return U
         if name.endswith("Option::<T>::is_some") or name.endswith("Option::<T>::is_none"):
             a = args[0]
             while isinstance(a, tuple) and a[0] == "rv":
